@@ -2,6 +2,7 @@ package props
 
 import (
 	"bytes"
+	"encoding/base64"
 	"fmt"
 	"math/rand"
 	"strings"
@@ -247,6 +248,12 @@ func replayC11(c *core.Ctx, v *core.Violation) (bool, string) {
 	an, _ := m["without"].(string)
 	bn, _ := m["with"].(string)
 	e, _ := m["extension"].(string)
+	if tw, _ := m["converted_before_b64"].(string); tw != "" {
+		// the wide-character twin of the document goes first, through a fresh instance of the CJK configuration
+		if b, err := base64.StdEncoding.DecodeString(tw); err == nil {
+			_ = convert(specOf(bn).Build(), b)
+		}
+	}
 	cl, lo, d, ok := c11Eval(cfg.NewPool(), specOf(an), specOf(bn), v.Input, nil, e)
 	if !ok {
 		return false, "conversion failed (C01)"
@@ -310,6 +317,45 @@ func runC11(c *core.Ctx) {
 		}
 		c11Check(c, pool, e.name, a, b, x)
 		c.Count("wide_character_documents_on_a_cjk_base", 1)
+	}
+	// 1c. code-point twins first. Before a pure ASCII document is compared, a CJK-enabled instance converts its *twin*: every
+	// printable ASCII byte b replaced by a wide character whose code point ends in b (U+20000+b and U+30000+b, CJK extension
+	// planes; U+3000+b, kana; U+FF00+b-0x20, fullwidth forms). Anything the extension remembers about "this pair of characters
+	// around a line break" under a key narrower than the code point is remembered for the ASCII pair too. The comparison
+	// itself is the ordinary one: CJK on and off must agree on the ASCII document.
+	asciiTok := []string{"abc", "bcd", "a", "b", "c", "xyz", "Ab", "q.", "(r)", "s,", "t!", "1", "22", "\n", "\n", "\n", " \n", "*", "_", "`u`", "#", " ", " ", "w;", "[v](u)", "?", "\"k\"", "o-p"}
+	n1c := c.PerShard(c.N(40000, 1500000))
+	for i := 0; i < n1c; i++ {
+		d := wl.SoupFrom(r, asciiTok, 2+r.Intn(10))
+		cj := []string{cfg.SCJKSimple, cfg.SCJKCSS3, cfg.SCJKEsc, cfg.SCJKSimpleNoEsc}[r.Intn(4)]
+		if c11HasTrigger(cj, d) {
+			continue
+		}
+		a := cfg.Spec{Only: []string{}, Unsafe: r.Intn(2) == 0}
+		b := cfg.Spec{Only: []string{cj}, Unsafe: a.Unsafe}
+		base := []rune{0x20000, 0x30000, 0x3000, 0xFEE0, 0x2F800 - 0x21, 0x1F300}[r.Intn(6)]
+		var tw []byte
+		for _, ch := range d {
+			if ch > 0x20 && ch < 0x7f && ch != '\\' {
+				tw = append(tw, string(base+rune(ch))...)
+			} else {
+				tw = append(tw, ch)
+			}
+		}
+		_ = convert(pool.Get(b), tw)
+		c.Eval()
+		c.Count("ascii_documents_compared_after_their_wide_character_twin", 1)
+		name := a.Name() + " => " + b.Name()
+		c.Begin(name, d)
+		class, locus, detail, ok := c11Eval(pool, a, b, d, c, cj)
+		c.End()
+		c.Evals(2)
+		if !ok || class == "" {
+			continue
+		}
+		c.Violation(&core.Violation{Class: class, Locus: locus + ":after-wide-twin", Config: name, Input: d,
+			Detail: "the CJK-enabled instance had converted the wide-character twin of the document before (" + q(tw) + ")\n" + detail,
+			Script: map[string]any{"extension": cj, "without": a.Name(), "with": b.Name(), "converted_before_b64": base64.StdEncoding.EncodeToString(tw)}})
 	}
 	// 2. random documents
 	n2 := c.PerShard(c.N(700000, 30000000))
